@@ -14,11 +14,11 @@ from ..core.framework import Ctx, b2s
 
 SPEC = {
     "modules": ["HC.Props.C02"],
-    "extracted": ["Guards", "Consts", "ReqGlue", "Atomic", "Excepts"],
+    "extracted": ["Guards", "Consts", "ReqGlue", "Atomic", "Excepts", "H2Init"],
     "technique": "Lean 4 transducer theorem (events handed to the protocol = specification of the app's messages, for every status/header list/chunking, by induction over chunks) + suppress_body and trailers gates + head-composition laws; HTTP/2 END TO END: a contents-carrying refinement of the C08/C09 send-path model (HC/Proto/H2Wire.lean: frames on the wire, FIFO buffer contents, pending trailers) with a per-stream invariant over every schedule, composed with the HTTPStream model and C09's delivery-at-quiescence theorem (h2_response_delivered, h2_response_end_to_end); tied by end-to-end runs on both workers parsed by independent h11/h2 clients, by the composed model's prediction for every HTTP/2 case, and by frame-by-frame trace acceptance of the contents model against the real H2Protocol (raw-frame ledger)",
-    "level_text": "Proved in Lean for every final status, every header list that validates and every chunking (any number of chunks, empty ones included): the protocol layer is given exactly one response head with the application's headers in order, the non-empty chunks in order (none when HEAD / 1xx / 204 / 304 — the extracted suppress_body, characterised), then end-of-body, one access record and stream-closed; trailers only on HTTP/2+ with te: trailers; the HTTP/1 head is app headers ++ server headers (date/server/alt-svc only) ++ connection: close at the request maximum; the HTTP/2 head is :status ++ app ++ server headers; a WINDOW_UPDATE / INITIAL_WINDOW_SIZE change unblocks every buffered stream it concerns (tests extracted from _window_updated: connection-level = all); HTTP/2 trailers are handed to the protocol iff HTTP/2+ and te: trailers, kept until the body is out and sent as the one frame that ends the stream (exactly one END_STREAM-carrying h2 call, extracted from _end_stream).  End-to-end on every run: scripted applications (status x headers x chunking incl. chunks larger than the 16 KiB frame and 64 KiB window) on HTTP/1.0, 1.1 and 2, both workers; HTTP/2 client shapes: stream windows smaller / larger than the connection window, frame size, 1-3 concurrent streams, seven acknowledgement styles (automatic, paused, late, explicit connection/stream WINDOW_UPDATEs in either order, connection only); trailers with and without te: trailers; independent h11/h2 client parsers recover status, headers, body and end-of-message, compared with the monitor and with the Lean-predicted view.  HTTP/2 END TO END (theorems h2_response_delivered / h2_response_end_to_end, with wire_refines and fifo): for every final status, header list that validates, chunking (any number of chunks, empty ones included, any sizes - beyond the frame size and the windows) and EVERY schedule of the send path (any interleaving of the stream events of any number of streams with WINDOW_UPDATE / SETTINGS / PRIORITY frames, the send task's picks - whatever unblocked stream the priority tree hands out -, its suspensions inside _send_data and the wake-ups of waiting senders; the only hypothesis on schedules is C09's: the send task sleeps only at DeadlockError) that ends with the send task quiescent, the connection open, the stream not reset and credit on the stream and the connection: the frames written on that stream are EXACTLY one HEADERS frame :status ++ validated application headers ++ server headers, then DATA frames whose payloads concatenate to the concatenation of the chunks (nothing when the body must be suppressed), then exactly one frame ending the stream - the empty DATA frame with END_STREAM, or the HEADERS frame carrying all pending trailers and END_STREAM - and nothing else.  The contents model (what bytes the byte counters of the C08/C09 model stand for: push extends the buffer at the back, pop takes from the front, close() empties it; _end_stream's test extracted) is proved to refine the C08/C09 model step by step, and is tied to the code twice: (1) frame by frame against the real H2Protocol driven directly with real HTTPStreams, real send task, h2 and priority (the reconstructed op list of every run - the same one C08/C09 replay - is replayed with the applications' bytes, Response and Trailers events at their positions; the frames it writes per stream - kinds, sizes, payload, response head, trailers - must equal the raw-frame ledger of the server's byte stream and what the independent client decoded; where the theorem's hypotheses hold at the end of a run its conclusion is evaluated on the implementation's wire), (2) end to end: for every HTTP/2 case the composition itself (HTTPStream model -> stream events -> a pseudo-random schedule of the send path with the client's windows and frame size, run to quiescence) must end as the theorem says and predict the status, headers, body, end-of-stream and trailers the independent h2 client saw on the real TCPServer.",
+    "level_text": "Proved in Lean for every final status, every header list that validates and every chunking (any number of chunks, empty ones included): the protocol layer is given exactly one response head with the application's headers in order, the non-empty chunks in order (none when HEAD / 1xx / 204 / 304 — the extracted suppress_body, characterised), then end-of-body, one access record and stream-closed; trailers only on HTTP/2+ with te: trailers; the HTTP/1 head is app headers ++ server headers (date/server/alt-svc only) ++ connection: close at the request maximum; the HTTP/2 head is :status ++ app ++ server headers; a WINDOW_UPDATE / INITIAL_WINDOW_SIZE change unblocks every buffered stream it concerns (tests extracted from _window_updated: connection-level = all); HTTP/2 trailers are handed to the protocol iff HTTP/2+ and te: trailers, kept until the body is out and sent as the one frame that ends the stream (exactly one END_STREAM-carrying h2 call, extracted from _end_stream).  An h2c upgrade request always gets stream 1 to be answered on: H2Protocol.initiate (test extracted) takes h2's upgrade entry point for every HTTP2-Settings value, the empty string of an empty or absent header included (h2c_response_has_a_stream).  End-to-end on every run: scripted applications (status x headers x chunking incl. chunks larger than the 16 KiB frame and 64 KiB window) on HTTP/1.0, 1.1 and 2, both workers; HTTP/2 negotiated by ALPN, by prior knowledge on a cleartext connection and by an HTTP/1.1 Upgrade: h2c request (the client's real HTTP2-Settings, an empty value, no header; the response travels on stream 1, further streams behind it); HTTP/2 client shapes: stream windows smaller / larger than the connection window, frame size, 1-3 concurrent streams, seven acknowledgement styles (automatic, paused, late, explicit connection/stream WINDOW_UPDATEs in either order, connection only); trailers with and without te: trailers; independent h11/h2 client parsers recover status, headers, body and end-of-message, compared with the monitor and with the Lean-predicted view.  HTTP/2 END TO END (theorems h2_response_delivered / h2_response_end_to_end, with wire_refines and fifo): for every final status, header list that validates, chunking (any number of chunks, empty ones included, any sizes - beyond the frame size and the windows) and EVERY schedule of the send path (any interleaving of the stream events of any number of streams with WINDOW_UPDATE / SETTINGS / PRIORITY frames, the send task's picks - whatever unblocked stream the priority tree hands out -, its suspensions inside _send_data and the wake-ups of waiting senders; the only hypothesis on schedules is C09's: the send task sleeps only at DeadlockError) that ends with the send task quiescent, the connection open, the stream not reset and credit on the stream and the connection: the frames written on that stream are EXACTLY one HEADERS frame :status ++ validated application headers ++ server headers, then DATA frames whose payloads concatenate to the concatenation of the chunks (nothing when the body must be suppressed), then exactly one frame ending the stream - the empty DATA frame with END_STREAM, or the HEADERS frame carrying all pending trailers and END_STREAM - and nothing else.  The contents model (what bytes the byte counters of the C08/C09 model stand for: push extends the buffer at the back, pop takes from the front, close() empties it; _end_stream's test extracted) is proved to refine the C08/C09 model step by step, and is tied to the code twice: (1) frame by frame against the real H2Protocol driven directly with real HTTPStreams, real send task, h2 and priority (the reconstructed op list of every run - the same one C08/C09 replay - is replayed with the applications' bytes, Response and Trailers events at their positions; the frames it writes per stream - kinds, sizes, payload, response head, trailers - must equal the raw-frame ledger of the server's byte stream and what the independent client decoded; where the theorem's hypotheses hold at the end of a run its conclusion is evaluated on the implementation's wire), (2) end to end: for every HTTP/2 case the composition itself (HTTPStream model -> stream events -> a pseudo-random schedule of the send path with the client's windows and frame size, run to quiescence) must end as the theorem says and predict the status, headers, body, end-of-stream and trailers the independent h2 client saw on the real TCPServer.",
     "level_note": "Trusted: Lean kernel; stream model HC/Stream/Http.lean and head functions HC/Proto/Heads.lean (tied by differential runs); the send-path model HC/Proto/H2Send.lean (C08/C09's, tied by their trace acceptance) and its contents wrapper HC/Proto/H2Wire.lean (tied by the frame-by-frame comparison; 'written' means handed to the transport); legal HTTP/1 framing and the HTTP/2 frame encoding / HPACK are h11's and h2's (library behaviour, observed only through the independent client parsers, which raise on violations); h2 drops connection-specific fields from a head it is handed; 1xx as a final status is outside the quantifier; the end-to-end HTTP/2 theorem speaks about a stream that is neither reset nor on a closed connection (the statement's own scope).",
-    "rule": "status x method x header-variant x chunking-class x protocol x pace x worker x (HTTP/2: initial window, frame size, concurrent streams, trailers); distinct = distinct (protocol, method, status class, header variant, chunking class, pace, worker); non-trivial = a body is sent or must be suppressed",
+    "rule": "status x method x header-variant x chunking-class x protocol x pace x worker x (HTTP/2: how it was negotiated - ALPN / prior knowledge / h2c upgrade with real, empty, absent HTTP2-Settings -, initial window, frame size, concurrent streams, trailers); distinct = distinct (protocol, method, status class, header variant, chunking class, pace, worker); non-trivial = a body is sent or must be suppressed",
     "trusted": ["h11 / h2 client-side parsers as oracles for what a client sees"],
     "partial": ["HTTP/1: framing legality is delegated to h11 (LibM); the theorem stops at the events handed to it.  HTTP/2: the theorem goes down to the frames handed to h2 (kinds, order, payload bytes, header lists); their byte encoding is h2's"],
     "assumptions": ["applications send lower-case header names (ASGI requirement) and a content-length that matches the body when they send one"],
@@ -71,7 +71,33 @@ def gen_case(ctx: Ctx) -> dict:
             case["initial_window"] = 1 << 20           # without stream-level updates the stream window must hold the body
         if not suppress and rng.random() < 0.25:
             case["trailers"] = rng.choice([[[["x-trailer", "t1"]]], [[["x-trailer", "t1"], ["x-sum", "2"]]], [[["x-a", "1"]], [["x-b", "2"]]]])
+        # how HTTP/2 was negotiated: ALPN, prior knowledge on a cleartext connection, or an HTTP/1.1 `Upgrade: h2c` request
+        # (which IS the request of stream 1) with the client's real HTTP2-Settings, an empty one, or none at all
+        case["via"] = rng.choice(["alpn", "alpn", "alpn"] + list(H2_VIAS[1:]))
+        normalise_via(case)
     return case
+
+
+H2_VIAS = ("alpn", "prior", "h2c", "h2c_empty", "h2c_absent")
+
+
+def normalise_via(case: dict) -> None:
+    """an upgrade request has no body (one with a body is not upgraded) and its 101 must be readable before anything else"""
+    if case.get("via", "alpn").startswith("h2c"):
+        if case["method"] == "POST":
+            case["method"] = "GET"
+        if case["method"] == "HEAD" and any(n == "content-length" and v != "0" for n, v in case["headers"]):
+            # the independent client is h2 in client role: on a stream it did not open itself (stream 1 of an upgrade) it does
+            # not know that the request was a HEAD and insists on the announced body length
+            case["method"] = "GET"
+        if case["pace"] == "paused":
+            case["pace"] = "late_ack"
+        if (case.get("initial_window") or 65535) < 65535:
+            # The harness client can only announce a stream window in a SETTINGS frame behind its preface, i.e. after the
+            # server has begun to answer stream 1 under the default window: a smaller one then makes the window of stream 1
+            # negative and h2's client-side window manager keeps back the credit it had not yet returned (it is only
+            # recomputed when more data arrives) - a deadlock between two correct peers' heuristics, not a server matter.
+            case["initial_window"] = None
 
 
 H2_PACES = ["immediate", "immediate", "late_ack", "paused", "conn_first", "stream_first", "conn_only"]
@@ -102,17 +128,43 @@ def run_case(case: dict) -> dict:
     if case["proto"] == "2":
         n_streams = case.get("streams", 1)
         pace = case["pace"]
+        via = case.get("via", "alpn")
+        h2c = via.startswith("h2c")
 
         async def client(io):
-            c = C.H2Client(initial_window=case.get("initial_window"), max_frame=case.get("max_frame"), auto_window=(pace in ("immediate", "paused")))
+            c = C.H2Client(initial_window=case.get("initial_window"), max_frame=case.get("max_frame"), auto_window=(pace in ("immediate", "paused")),
+                           upgrade=h2c)
             box["c"] = c
+            if h2c:
+                # the HTTP/1.1 request that asks for the upgrade is the request of stream 1; the client speaks HTTP/2 (its
+                # preface first) once it has read the 101
+                hs = [(b"host", b"x"), (b"upgrade", b"h2c"), (b"connection", b"Upgrade, HTTP2-Settings")]
+                if via == "h2c":
+                    hs.append((b"http2-settings", c.upgrade_settings))
+                elif via == "h2c_empty":
+                    hs.append((b"http2-settings", b""))
+                await io.send(C.h1_request(case["method"], "/r", hs + req_headers[1:]))
+                buf = b""
+                for _ in range(40):
+                    await io.settle()
+                    buf += io.take()
+                    if b"\r\n\r\n" in buf:
+                        break
+                    await io.sleep(0.05)
+                head, _, rest = buf.partition(b"\r\n\r\n")
+                box["upgrade_head"] = head
+                c._st(1)
+                if head.startswith(b"HTTP/1.1 101"):
+                    c.receive(rest)
             if case.get("initial_window") is not None or case.get("max_frame") is not None:
                 # the SETTINGS exchange first: h2 (client side) raises its inbound frame-size limit only between two
                 # `receive_data` calls, so the server's acknowledgement must not share a read with a larger frame
                 await c.pump(io)
             if pace == "paused":
                 io.pause_writes()
-            sids = [c.request(C.h2_headers(case["method"], "/r", extra=req_headers[1:])) for _ in range(n_streams)]
+            sids = [c.request(C.h2_headers(case["method"], "/r", extra=req_headers[1:])) for _ in range(n_streams - (1 if h2c else 0))]
+            if h2c:
+                sids = [1] + sids
             await c.pump(io)
             if pace == "paused":
                 await io.sleep(1.0)
@@ -160,8 +212,8 @@ def run_case(case: dict) -> dict:
             await c.pump(io)
             await io.sleep(2.0)
             await c.pump(io)
-            return {"summary": c.summary(), "sids": sids}
-        res = R.RUNNERS[case["worker"]]({}, "h2", client, [script], tail=20)
+            return {"summary": c.summary(), "sids": sids, "upgrade_head": b2s(box.get("upgrade_head", b""))}
+        res = R.RUNNERS[case["worker"]]({}, "h2" if via == "alpn" else None, client, [script], tail=20)
         cr = res.get("client_result") or {"summary": {"streams": {}, "error": "client did not finish"}, "sids": []}
         c_error = cr["summary"]["error"]
         views = []
@@ -173,6 +225,8 @@ def run_case(case: dict) -> dict:
                           "body": st.get("data", ""), "complete": bool(st.get("ended")), "reset": st.get("reset"), "trailers": st.get("trailers"),
                           "error": c_error, "frames": st.get("frames", []), "sid": sid})
         view = views[0]
+        if h2c:
+            view["upgrade_head"] = cr.get("upgrade_head", "")
     else:
         async def client(io):
             if case["pace"] == "paused":
@@ -226,11 +280,18 @@ def check(ctx: Ctx, cases: List[dict]) -> None:
             ctx.count("h2.initial_window", case.get("initial_window"))
             ctx.count("h2.streams", case.get("streams", 1))
             ctx.count("h2.trailers", f"{len(case.get('trailers') or [])} te={int(bool(case['te']))}")
+            ctx.count("h2.negotiated_via", case.get("via", "alpn"))
         if case["chunks"] or suppress:
             ctx.distinct([case["proto"], case["method"], sclass, case["header_variant"], case["chunking"], case["pace"], case["worker"],
-                          case.get("initial_window"), case.get("streams", 1), bool(case.get("trailers"))])
+                          case.get("initial_window"), case.get("streams", 1), bool(case.get("trailers")), case.get("via")])
         ctx.sample({k: (v2 if k != "chunks" else [len(c) for c in v2]) for k, v2 in case.items()}, cap=3)
         sig = {"family": "response", "proto": case["proto"]}
+        if case.get("via", "alpn") != "alpn":
+            sig["via"] = case["via"]
+        if case.get("via", "alpn").startswith("h2c") and not o["view"].get("upgrade_head", "").startswith("HTTP/1.1 101"):
+            # "in the negotiated protocol": the upgrade must have been agreed to before anything is said in HTTP/2
+            ctx.violation("h2c_upgrade_not_answered", case, {"head": o["view"].get("upgrade_head", "")[:200]}, sig)
+            continue
         if o["res"]["client_error"] or o["res"]["error"] or o["res"]["loop_errors"]:
             ctx.violation("handler_error", case, o["res"], {**sig, "kind": "internal"})
             continue
@@ -462,6 +523,32 @@ def check_wire(ctx: Ctx, scenarios: List[dict]) -> None:
     ctx.count("wire.runs", "skipped(runaway / priority library ghost)", len(results) - len(usable))
 
 
+def carrier_corpus() -> List[dict]:
+    """deterministic: one well-formed response over every way HTTP/2 can have been negotiated besides ALPN - prior knowledge
+    on a cleartext connection and the HTTP/1.1 `Upgrade: h2c` request (whose response travels on stream 1, which only h2's
+    upgrade entry point creates) with the client's real HTTP2-Settings value, an empty one and none - small and large bodies
+    (larger than the window: the stream-1 window comes from HTTP2-Settings or the defaults), HEAD, a second stream behind
+    the upgraded one, trailers; both workers"""
+    base = {"family": "response", "proto": "2", "status": 200, "headers": [["x-a", "1"]], "header_variant": "custom1", "te": False,
+            "initial_window": None, "max_frame": None}
+    win = [b2s(b"w" * 70000), "zzz"]
+    out = []
+    for via in H2_VIAS[1:]:
+        for shape in ("tiny2", "window", "head", "trailers"):
+            for worker in ("asyncio", "trio"):
+                c = {**base, "via": via, "worker": worker, "method": "GET", "chunking": "tiny", "chunks": ["ab", "c"], "pace": "immediate", "streams": 1}
+                if shape == "tiny2":
+                    c.update({"streams": 2, "status": 404})
+                elif shape == "window":
+                    c.update({"chunking": "big_window", "chunks": win, "pace": "late_ack"})
+                elif shape == "head":
+                    c.update({"method": "HEAD", "status": 204 if via == "prior" else 200})
+                else:
+                    c.update({"te": True, "trailers": [[["x-trailer", "t1"]], [["x-sum", "2"]]]})
+                out.append(c)
+    return out
+
+
 def flow_corpus() -> List[dict]:
     """deterministic: the client shapes in which the connection window, not the stream window, is what stops the response
     (stream windows larger than 65535; several streams sharing the connection window), every acknowledgement style, and
@@ -490,7 +577,7 @@ def flow_corpus() -> List[dict]:
 
 def run(ctx: Ctx) -> None:
     n = ctx.budget(500, 8000)
-    cases = flow_corpus() + [gen_case(ctx) for _ in range(n)]
+    cases = carrier_corpus() + flow_corpus() + [gen_case(ctx) for _ in range(n)]
     # boundary corpus: every status x method on every protocol once (small bodies)
     for proto in ("1.0", "1.1", "2"):
         for status in STATUSES:
@@ -503,6 +590,7 @@ def run(ctx: Ctx) -> None:
 
 
 def replay(ctx: Ctx, case: dict) -> None:
+    normalise_via(case)
     if case.get("family") == "wire":
         check_wire(ctx, [case["scenario"]])
     else:
